@@ -31,7 +31,6 @@ def plan(tier):
         {"h": "num_truncate_quotient_ii", "spec": 0, "sym": "x, y: isize"},
         {"h": "num_floor_remainder_ii", "spec": 0, "sym": "x, y: isize"},
         {"h": "num_euclidean_remainder_ii", "spec": 0, "sym": "x, y: isize"},
-        {"h": "num_expt_negative_small", "spec": 0, "sym": "|l| <= 12, -7 <= r <= -1"},
         {"h": "sym_rollback_redef_1", "spec": 1, "sym": "f1 in {1,2,3}"},
     ]
     return q + (t if tier == "thorough" else [])
